@@ -275,6 +275,8 @@ export function genWatch(rng, p) {
     }
     // syntactically broken
     vars.push([A("var"), text0 + rng.pick(["type Broken = {;\n", "export const = ;\n", "interface { \n", "type X = <<;\n"]), A("broken")]);
+    // blank: parses, declares nothing
+    if (rng.chance(1, 2)) vars.push([A("var"), rng.pick(["", "  \n", "\n\n", "// nothing left\n", "/* gone */"]), mk([], [])]);
     files.push([A("file"), name, ...vars]);
   }
   const ops = [];
